@@ -45,15 +45,29 @@ class Rewriter(ast.NodeTransformer):
             return ast.copy_location(call, node)
         return node
 
+    def visit_Attribute(self, node):
+        self.generic_visit(node)
+        # a bare reference to a function of the re module / an unbound str method (e.g. `find = re.search`, `map(str.strip, x)`)
+        if self.strings and isinstance(node.ctx, ast.Load) and isinstance(node.value, ast.Name) and node.value.id in ("re", "str") \
+                and node.attr in STR_METHODS:
+            call = ast.Call(func=ast.Name(id="_symx_attr", ctx=ast.Load()), args=[node.value, ast.Constant(value=node.attr)], keywords=[])
+            return ast.copy_location(call, node)
+        return node
+
     def visit_Call(self, node):
+        f = node.func
+        if self.strings and isinstance(f, ast.Attribute) and f.attr in STR_METHODS:
+            # visit the receiver and the arguments, but not the attribute itself (handled here as a call)
+            recv = self.visit(f.value)
+            args = [self.visit(a) for a in node.args]
+            kws = [ast.keyword(arg=k.arg, value=self.visit(k.value)) for k in node.keywords]
+            call = ast.Call(func=ast.Name(id="_symx_call", ctx=ast.Load()),
+                            args=[recv, ast.Constant(value=f.attr)] + args, keywords=kws)
+            return ast.copy_location(call, node)
         self.generic_visit(node)
         if not self.strings:
             return node
         f = node.func
-        if isinstance(f, ast.Attribute) and f.attr in STR_METHODS and not any(isinstance(a, ast.Starred) and False for a in node.args):
-            call = ast.Call(func=ast.Name(id="_symx_call", ctx=ast.Load()),
-                            args=[f.value, ast.Constant(value=f.attr)] + node.args, keywords=node.keywords)
-            return ast.copy_location(call, node)
         if isinstance(f, ast.Name) and f.id in BUILTIN_CALLS:
             node.func = ast.copy_location(ast.Name(id=BUILTIN_CALLS[f.id], ctx=ast.Load()), f)
         return node
